@@ -78,3 +78,40 @@ Qed.
 Example C09_walk_premises_satisfiable :
   wf_stg loopG /\ sat loop_sol (encode_kfdc (loop_inst 1)) /\ sat loop_sol (encode_kpcc loop_kpcc).
 Proof. split; [exact loopG_wf|]. split; [exact loop_feasible|exact loop_kpcc_feasible]. Qed.
+
+(* ---- the verified exhaustive oracle for minimum walk covers (WalkCoverOracle.v): all source-to-sink walks that pass every edge at most c
+   times are enumerated (the enumeration of WalkOracle.v); the least number of them covering X is found by exhaustive search.  It is exact
+   for the walks within the capacity c, and with c >= |X| + 2 the capacity loses no minimum (a minimum cover with that bound exists), so the
+   oracle returns the walk width: the least number of s-t walks of ANY multiplicities covering X.  The C09 engine runs the extracted
+   min_wcover_model next to its cover + antichain certificate on small cyclic instances (counter verified_walk_cover_oracle_decided). *)
+From FP Require WalkCoverOracle WalkWidth Dilworth.
+Theorem C09_walk_cover_oracle_is_exact_within_the_capacity :
+  forall (E : list PathEnc.edge) (s t : node) (X : list PathEnc.edge) (c kmax : nat),
+  match WalkCoverOracle.min_wcover E s t X c kmax with
+  | Some k => (k <= kmax)%nat /\ (exists l, WalkCoverOracle.ccover E s t X c l /\ length l = k) /\
+              (forall l, WalkCoverOracle.ccover E s t X c l -> (k <= length l)%nat)
+  | None => forall l, WalkCoverOracle.ccover E s t X c l -> (kmax < length l)%nat
+  end.
+Proof. exact WalkCoverOracle.min_wcover_correct. Qed.
+Print Assumptions C09_walk_cover_oracle_is_exact_within_the_capacity.
+
+Theorem C09_walk_cover_oracle_returns_the_walk_width :
+  forall (E : list PathEnc.edge) (s t : node) (X : list PathEnc.edge) (c kmax : nat),
+  (forall u v, In (u, v) E -> Dilworth.conn E s u /\ Dilworth.conn E v t) -> NoDup X -> incl X E -> (length X + 2 <= c)%nat ->
+  match WalkCoverOracle.min_wcover E s t X c kmax with
+  | Some k => (k <= kmax)%nat /\
+              (exists A', NoDup A' /\ incl A' X /\ WalkWidth.walk_incompatible E A' /\ length A' = k) /\
+              (exists W, length W = k /\ (forall l, In l W -> WalkWidth.st_walk E s t l) /\
+                         (forall e, In e X -> exists l, In l W /\ In e (EulerProofs1.pairs l))) /\
+              (forall W, (forall l, In l W -> WalkWidth.st_walk E s t l) ->
+                         (forall e, In e X -> exists l, In l W /\ In e (EulerProofs1.pairs l)) -> (k <= length W)%nat)
+  | None => forall W, (forall l, In l W -> WalkWidth.st_walk E s t l) ->
+                      (forall e, In e X -> exists l, In l W /\ In e (EulerProofs1.pairs l)) -> (kmax < length W)%nat
+  end.
+Proof. exact WalkCoverOracle.min_wcover_is_walk_width. Qed.
+Print Assumptions C09_walk_cover_oracle_returns_the_walk_width.
+
+Example C09_walk_cover_oracle_nonvacuous :
+  WalkCoverOracle.min_wcover_model WalkWidth.cyE 0%N 4%N [(1, 2); (2, 1); (2, 3)]%N 3 = Some 1%nat.
+Proof. exact WalkCoverOracle.two_cycle_cover_oracle. Qed.
+Print Assumptions C09_walk_cover_oracle_nonvacuous.
